@@ -444,6 +444,29 @@ def names_modules():
                     items += [["wire", [nm]], ["gate", "not", [["U9", [nm, "a"]]]]]
                 items += [["gate", "and", [["U0", ["y", nm, lit]]]], ["bb", "ff", "f0", [["clk", lit], ["d", nm], ["q", "z"]]]]
                 yield {"name": "top", "ports": items[0][1] + ["y", "z"], "items": items}
+    # identifier shapes the grammar accepts (leading underscore, all-underscore, capitals, digits) in every role
+    for x in ("_w", "_1_", "__", "n_1_", "N9", "_"):
+        base_in, base_out = [["input", ["a", "b"]]], [["output", ["y", "z"]]]
+        ff = lambda inst, d: ["bb", "ff", inst, [["clk", "a"], ["d", d], ["q", "z"]]]
+        roles = {
+            "wire": base_in + base_out + [["wire", [x]], ["gate", "and", [["U0", [x, "a", "b"]]]], ["gate", "not", [["U1", ["y", x]]]], ["assign", [["z", ("id", x)]]]],
+            "gate-instance": base_in + base_out + [["gate", "and", [[x, ["y", "a", "b"]]]], ["assign", [["z", ("id", "y")]]]],
+            "assign-lhs": base_in + base_out + [["wire", [x]], ["assign", [[x, ("id", "a")]]], ["gate", "or", [["U0", ["y", x, "b"]]]], ["assign", [["z", ("id", "b")]]]],
+            "bb-instance": base_in + base_out + [ff(x, "b"), ["gate", "xor", [["U0", ["y", "a", "z"]]]]],
+            "bb-net": base_in + base_out + [["wire", [x]], ["gate", "nand", [["U0", [x, "a", "b"]]]], ff("f0", x), ["assign", [["y", ("id", x)]]]],
+            "input": [["input", ["a", x]]] + base_out + [["gate", "and", [["U0", ["y", "a", x]]]], ["assign", [["z", ("id", x)]]]],
+            "output": base_in + [["output", ["y", x]]] + [["gate", "and", [["U0", [x, "a", "b"]]]], ["assign", [["y", ("id", x)]]]],
+        }
+        for role, items in roles.items():
+            ports = [n for it in items if it[0] in ("input", "output") for n in it[1]]
+            yield {"name": "top", "ports": ports, "items": items}
+        yield {"name": x, "ports": ["a", "b", "y", "z"], "items": base_in + base_out + [["gate", "and", [["U0", ["y", "a", "b"]]]], ["assign", [["z", ("id", "a")]]]]}
+    # one operand listed many times in a parity gate: the helper buffers must get the same names in both parsers
+    for t in ("xor", "xnor"):
+        for k in range(2, 16):
+            items = [["input", ["a", "b"]], ["output", ["y", "z"]], ["gate", t, [["U0", ["y"] + ["a"] * k]]],
+                     ["gate", t, [["U1", ["z", "b", "a", "a", "b"]]]]]
+            yield {"name": "top", "ports": ["a", "b", "y", "z"], "items": items}
 
 
 def run_names(job, acc):
@@ -451,7 +474,7 @@ def run_names(job, acc):
         text = V.render(V.module_tokens(m))
         acc.states += 1
         acc.nontrivial += 1
-        check_text(acc, text, "top", {"kind": "module", "module": m}, "names", m)
+        check_text(acc, text, m["name"], {"kind": "module", "module": m}, "names", m)
         acc.sample({"text": text})
     acc.observe(acc.states)
 
